@@ -917,3 +917,33 @@ Proof.
   rewrite (sync_points_roundtrip ps d Hall Hd). cbn [bind].
   rewrite (copy_arr_len 64%nat sig d) by len_solve. reflexivity.
 Qed.
+
+(* ---- the size view of receive ------------------------------------------------------------ *)
+
+Theorem receive_decision_spec : forall limit v x n body, 0 <= n < 4294967296 ->
+  rmap (fun r => len (snd r)) (rv_result (receive limit ([v; x] ++ be_bytes 4 n ++ body))) =
+  receive_decision limit v n (len body).
+Proof.
+  intros limit v x n body Hn. unfold receive, receive_decision. change header_size with 6.
+  destruct ((limit =? 0) || (max_size <? limit)); [reflexivity|].
+  set (hdr := [v; x] ++ be_bytes 4 n).
+  replace ([v; x] ++ be_bytes 4 n ++ body) with (hdr ++ body) by (subst hdr; now rewrite <- app_assoc).
+  assert (Hh : len hdr = 6) by (subst hdr; rewrite len_app, len_be_bytes; reflexivity).
+  rewrite len_app, Hh. pose proof (len_nonneg body). replace (6 + len body <? 6) with false by lia.
+  rewrite (firstn_len_app hdr body 6) by lia. rewrite (skipn_len_app hdr body 6) by lia.
+  subst hdr. cbn [app nth skipn].
+  destruct (negb (v =? frame_version)%N); [reflexivity|].
+  rewrite be_roundtrip by (change (256 ^ Z.of_nat 4) with 4294967296; lia).
+  destruct (limit <? n); [reflexivity|]. destruct (len body <? n) eqn:E; [reflexivity|].
+  cbn [rmap rv_result snd]. f_equal. apply len_firstn. lia.
+Qed.
+
+(* what Send accepts, Receive returns whole: the two limits agree *)
+Theorem send_receive_agree : forall n, send_accepts n = true -> send_receive_size n = Ok n.
+Proof.
+  intros n H. unfold send_receive_size. rewrite H. unfold send_accepts in H.
+  unfold receive_decision, receive_limit. change max_size with 33554432 in *.
+  replace ((33554432 =? 0) || (33554432 <? 33554432)) with false by reflexivity.
+  rewrite N.eqb_refl. cbn [negb]. replace (33554432 <? n) with false by lia.
+  replace (n <? n) with false by lia. reflexivity.
+Qed.
